@@ -134,12 +134,13 @@ type c15Case struct {
 	FlushOne bool // flush once, after the first write only
 	Status2  int  // second, superfluous WriteHeader
 	Trailer  bool // the origin announces and sends a trailer
+	TrEarly  bool // ... and sets its value right after WriteHeader, before the first write
 	Empty    bool // zero-length first write
 	Late     bool // header map changed after WriteHeader
 }
 
 func (c c15Case) String() string {
-	return fmt.Sprintf("pos=%s level=%d min=%d AE=%q type=%q size=%d payload=%s status=%d declare=%v %s writes=%d flushmid=%v interim=%d abort=%v flushone=%v status2=%d trailer=%v emptywrite=%v late-header=%v", c.Pos, c.Level, c.Min, c.AE, c.CType, c.Size, c.Payload, c.Status, c.Declare, c.Method, c.Writes, c.FlushMid, c.Interim, c.Abort, c.FlushOne, c.Status2, c.Trailer, c.Empty, c.Late)
+	return fmt.Sprintf("pos=%s level=%d min=%d AE=%q type=%q size=%d payload=%s status=%d declare=%v %s writes=%d flushmid=%v interim=%d abort=%v flushone=%v status2=%d trailer=%v%s emptywrite=%v late-header=%v", c.Pos, c.Level, c.Min, c.AE, c.CType, c.Size, c.Payload, c.Status, c.Declare, c.Method, c.Writes, c.FlushMid, c.Interim, c.Abort, c.FlushOne, c.Status2, c.Trailer, map[bool]string{true: "(early)"}[c.TrEarly], c.Empty, c.Late)
 }
 
 // origin returns the handler program and the entity the origin serves (body as the origin
@@ -186,7 +187,7 @@ func (c c15Case) origin() (*hprog, []byte, bool) {
 		p.FlushAfter = 1
 	}
 	p.Status2 = c.Status2
-	p.Trailer, p.EmptyWrite, p.LateHeader = c.Trailer, c.Empty, c.Late
+	p.Trailer, p.TrailerEarly, p.EmptyWrite, p.LateHeader = c.Trailer, c.TrEarly, c.Empty, c.Late
 	return p, plain, pre
 }
 
@@ -495,6 +496,9 @@ func c15Cases(th bool) []c15Case {
 					}
 					if sz > 0 { // a trailer needs a body to travel behind
 						out = append(out, c15Case{Pos: "gzip", Level: 5, Min: 64, AE: ae, CType: "text/html", Size: sz, Payload: "text", Status: st, Method: "GET", Writes: w, FlushOne: fo, Trailer: true})
+						if st != 0 {
+							out = append(out, c15Case{Pos: "gzip", Level: 5, Min: 64, AE: ae, CType: "text/html", Size: sz, Payload: "text", Status: st, Method: "GET", Writes: w, FlushOne: fo, Trailer: true, TrEarly: true})
+						}
 					}
 					out = append(out, c15Case{Pos: "gzip", Level: 5, Min: 64, AE: ae, CType: "text/html", Size: sz, Payload: "text", Status: st, Method: "GET", Writes: w, FlushOne: fo, Empty: true})
 				}
